@@ -650,6 +650,86 @@ theorem code_multi_member_atomic (h : Gen.zsetOneCall = true) (k : Key) (times :
   rw [h]
   exact multi_member_write_refines codeCfg (hz h) k times s hn
 
+/-! ### (8) One script / one transaction is one step with respect to the clock -/
+
+/-- ONE BLOCK = ONE INSTANT: a script or a transaction whose storage calls — made at ANY real times — all read the storage
+    clock frozen at its start returns, call by call, what the prescribed store returns when the whole block happens at the
+    instant it starts, and leaves the same visible entries: reads, existence tests, writes that create or update, TTL
+    replies and the deadlines set inside are all relative to that one instant. -/
+theorem block_is_one_instant (c : Cfg) (t0 : Nat) (ops : List (Op × Nat)) (s : Shard)
+    (hl : blockLazy c ops = true) (hn : NodupKeys s.data) :
+    (blockRun c true t0 ops s).2 = (Spec.blockRun t0 ops s.data).2 ∧
+    Spec.purge t0 (blockRun c true t0 ops s).1.data = Spec.purge t0 (Spec.blockRun t0 ops s.data).1 :=
+  blockRun_frozen_refines c t0 ops s s.data hl hn rfl
+
+/-- SAME LIVENESS THROUGHOUT: under the frozen clock two looks at a key `k` inside one block — separated by any calls that
+    are not about `k`, at any real times, for any deadline of `k` — give the same answer (GET the same value or nil both
+    times, EXISTS the same bit): no key expires in the middle of a script or of a transaction. -/
+theorem block_same_liveness (c : Cfg) (hg : c.lazy "get" = true) (hx : c.lazy "exists" = true) (t0 : Nat) (k : Key)
+    (mid : List (Op × Nat)) (s : Shard) (hn : NodupKeys s.data) (ha : blockAvoids k mid = true) :
+    (step c (.get k) t0 (blockRun c true t0 mid (step c (.get k) t0 s).1).1).2 = (step c (.get k) t0 s).2 ∧
+    (step c (.exists k) t0 (blockRun c true t0 mid (step c (.exists k) t0 s).1).1).2 = (step c (.exists k) t0 s).2 := by
+  constructor
+  · have h1 := step_refines c (.get k) t0 s hn (Or.inl hg)
+    have hn1 := step_nodup c (.get k) t0 s hn
+    have hf := blockRun_frozen_frame c t0 mid (step c (.get k) t0 s).1 k hn1 ha
+    have h2 := step_refines c (.get k) t0 _ hf.2 (Or.inl hg)
+    have hv1 : lookup (Spec.purge t0 (step c (.get k) t0 s).1.data) k = lookup (Spec.purge t0 s.data) k := by
+      rw [h1.1]; simp only [Spec.step]; split <;> simp_all
+    rw [h2.2, h1.2]
+    simp only [Spec.step]
+    rw [hf.1, hv1]
+    cases lookup (Spec.purge t0 s.data) k <;> rfl
+  · have h1 := step_refines c (.exists k) t0 s hn (Or.inl hx)
+    have hn1 := step_nodup c (.exists k) t0 s hn
+    have hf := blockRun_frozen_frame c t0 mid (step c (.exists k) t0 s).1 k hn1 ha
+    have h2 := step_refines c (.exists k) t0 _ hf.2 (Or.inl hx)
+    have hv1 : lookup (Spec.purge t0 (step c (.exists k) t0 s).1.data) k = lookup (Spec.purge t0 s.data) k := by
+      rw [h1.1]; simp only [Spec.step]
+    rw [h2.2, h1.2]
+    simp only [Spec.step]
+    rw [hf.1, hv1]
+
+/-- the block of the witness: `SET lock 5 PX 200`; one script reads it at 100 ms, works, and at 500 ms tests, reads,
+    APPENDs to (here: a modify-or-create of size 1) and asks the TTL of the same key -/
+def lockBlock : List (Op × Nat) :=
+  [(.get kA, 100), (.exists kA, 100), (.exists kA, 500), (.get kA, 500), (.update "append" kA .str 1, 500), (.ttl kA, 500)]
+
+/-- With every call reading the clock on its own the key EXPIRES INSIDE the block, even with every function lazily
+    checked: the script sees `5, 1` and then `0, nil`, its APPEND re-creates the key WITHOUT a TTL (a lock that never
+    expires); under the frozen clock it sees `5, 1, 1, 5`, the APPEND modifies the live key and 100 ms are left. -/
+theorem block_fails_per_call_clock :
+    let s : Shard := ⟨[(kA, ⟨.str, 5, some 200⟩)], [(kA, 200)]⟩
+    (blockRun Cfg.fixed false 100 lockBlock s).2 =
+      [.found .str 5, .bool true, .bool false, .missing, .num 1, .remaining none] ∧
+    lookup (blockRun Cfg.fixed false 100 lockBlock s).1.data kA = some ⟨.str, 1, none⟩ ∧
+    (blockRun Cfg.fixed true 100 lockBlock s).2 =
+      [.found .str 5, .bool true, .bool true, .found .str 5, .num 6, .remaining (some 100)] ∧
+    lookup (blockRun Cfg.fixed true 100 lockBlock s).1.data kA = some ⟨.str, 6, some 200⟩ := by
+  decide
+
+/-- the well-formed calls of a block -/
+def wfBlock : List (Op × Nat) → Bool
+  | [] => true
+  | (o, _) :: r => wfOp o && wfBlock r
+
+/-- THE CURRENT TREE, as soon as the translator sees the frozen storage clock (`storage::clock::freeze()` in the EVAL /
+    EVALSHA and EXEC paths, every expiry site reading `storage::clock::now()`): every script and every transaction of
+    well-formed storage calls is one instant of the prescribed store. -/
+theorem code_block_is_one_instant (h : Gen.scriptClockFrozen = true) (t0 : Nat) (ops : List (Op × Nat)) (s : Shard)
+    (hw : wfBlock ops = true) (hn : NodupKeys s.data) :
+    (blockRun codeCfg Gen.scriptClockFrozen t0 ops s).2 = (Spec.blockRun t0 ops s.data).2 ∧
+    Spec.purge t0 (blockRun codeCfg Gen.scriptClockFrozen t0 ops s).1.data = Spec.purge t0 (Spec.blockRun t0 ops s.data).1 := by
+  rw [h]
+  apply block_is_one_instant codeCfg t0 ops s _ hn
+  induction ops with
+  | nil => rfl
+  | cons p r ih =>
+    obtain ⟨o, t⟩ := p
+    simp only [wfBlock, Bool.and_eq_true] at hw
+    simp only [blockLazy, Bool.and_eq_true]
+    exact ⟨(code_ops_lazy_and_keep_index o hw.1).1, ih hw.2⟩
+
 /-! ### Non-vacuity -/
 
 example : ∀ o, lazyOp Cfg.fixed o = true := by intro o; cases o <;> rfl
